@@ -181,8 +181,9 @@ PROPS = {
         lean_modules=["PalomaModel.Props.C03"], gen=["Auth.lean"],
         harness_test="TestC03",
         n_quick=700, n_thorough=1500, thorough_seeds=6, timeout_quick=900,
-        spec_ops=["dnh", "cbh"],  # directed histories: denom hand-over, batch-confirmation attempts
-        rule="full application; for every one of the 41 Msg RPCs (message zoo) and every identity-bearing field: signed by A for itself (B bystander); signed by A with creator = B without / with a fee grant B->A; creator A with one identity field pointed at B; "
+        spec_ops=["dnh", "cbh", "lnh"],  # directed histories: denom hand-over, batch-confirmation attempts, light-node licences / client records
+        rule="multi-message transactions incl. messages that declare NO signer and ride on other messages' signatures (creator = sender / grantee / victim / third party), light-node histories (licences by sale, purchase or legacy grant; register / authenticate as time jumps; strangers running the open migration or acting in another principal's name with and without a fee grant); "
+             "full application; for every one of the 41 Msg RPCs (message zoo) and every identity-bearing field: signed by A for itself (B bystander); signed by A with creator = B without / with a fee grant B->A; creator A with one identity field pointed at B; "
              "message built for B but creator/signer A; governance-only messages signed by a user (three variants) and delivered as executed proposal; forged metadata.signers; the monitor diffs every store entry attributed to the victim "
              "(keyed by or mentioning its account / valoper / eth address, decoded queue records) minus what an empty block changes; distinct = distinct op text; all cases non-trivial",
         trusted_base=[SDK_TRUST, "the extractor's reading of the msg-server handlers (Gen/Auth.lean, printed in evidence); SDK signature verification and feegrant lookups are used as they are"],
